@@ -78,7 +78,16 @@ class SqlFluffLineageAnalyzer(LineageAnalyzer):
                     )
 
     def _list_specific_statement_segment(self, sql: str):
-        parsed = Linter(config=self._sqlfluff_config).parse_string(sql)
+        try:
+            parsed = Linter(config=self._sqlfluff_config).parse_string(sql)
+        except Exception as e:
+            # the parser itself gave up: an inline "-- sqlfluff:dialect:<unknown>" directive (KeyError), a dialect grammar
+            # that refers to a missing element (RuntimeError), ...
+            raise InvalidSyntaxException(
+                f"This SQL statement is unparsable, please check potential syntax error for SQL:\n"
+                f"{sql}\n"
+                f"{type(e).__name__}: {e}"
+            ) from e
         violations = [
             str(e)
             for e in parsed.violations
